@@ -690,6 +690,10 @@ func (r *Renderer) renderText(w util.BufWriter, source []byte, node ast.Node, en
 							_ = w.WriteByte('\n')
 						}
 					}
+				} else if sibling != nil {
+					// the next sibling is not a text node (emphasis, link, code span, ...):
+					// there is no wide character to join with, keep the line break
+					_ = w.WriteByte('\n')
 				}
 			} else {
 				_ = w.WriteByte('\n')
